@@ -62,6 +62,14 @@ CLAIMED = {
             'with the first long-time point.', '3/C11', None),
     'C12': ('Same runs as C01 on the live object state the summary is built from (count, height tag of the stored temperatures, search-log '
             'rows) + the real get_summary_object on a light design object with symbolic values.', SEARCH_NOTE, '3/C12', None),
+    'C14': ('For each concrete convex polygon (6 catalogue + seeded random polygons with 3..12 vertices, both orientations, touching the axes) '
+            'and rotation, for ALL target spacings in [5,25] m: generator terminates within derived loop bounds, every borehole inside/on '
+            'the outline, pair distances >= s, exact lattice on axis-aligned rectangles, rigid translation; rotation sweep returns the first '
+            'rotation with the maximal count for all count vectors; with perimeter spacing / no-go zones: inside the outline and outside '
+            'the zones (spacings in [5,12]).',
+            'polygon and rotation concrete (trig of symbolic arguments unsupported); coordinates natively in binary64; spacing regions thinner '
+            'than 1e-9 relative excluded from the lattice/translation clauses; gen_borehole_config stubbed by symbolic counts in the sweep units',
+            '3/C14', None),
     'C15': ('Geometry part for all radii in mm-scale ranges: equal-volume radii reproduce fluid and pipe-wall volume (independent '
             'cross-section formulas for double-U and coaxial), legs of the equivalent tube inside the possibly enlarged borehole and not '
             'overlapping, original borehole/grout not aliased, SingleUTube converts to itself.',
